@@ -55,6 +55,15 @@ type parser struct {
 	validDirectives []string    // a directive must be valid or it's an error
 	eof             bool        // if we encounter a valid EOF in a hard place
 	definedSnippets map[string][]Token
+	activeImports   []importFrame // imports whose spliced-in tokens the cursor is still inside of
+}
+
+// importFrame records that p.tokens[:end], from the place where an
+// import directive stood, were spliced in from the named sources
+// (absolute file names or snippet names).
+type importFrame struct {
+	sources []string
+	end     int
 }
 
 func (p *parser) parseAll() ([]ServerBlock, error) {
@@ -245,9 +254,12 @@ func (p *parser) doImport() error {
 	tokensAfter := p.tokens[p.cursor+1:]
 	var importedTokens []Token
 
+	var sources []string
+
 	// first check snippets. That is a simple, non-recursive replacement
 	if p.definedSnippets != nil && p.definedSnippets[importPattern] != nil {
 		importedTokens = p.definedSnippets[importPattern]
+		sources = []string{"(" + importPattern + ")"}
 	} else {
 		// make path relative to the file of the _token_ being processed rather
 		// than current working directory (issue #867) and then use glob to get
@@ -290,8 +302,35 @@ func (p *parser) doImport() error {
 				return err
 			}
 			importedTokens = append(importedTokens, newTokens...)
+			if absMatch, err := filepath.Abs(importFile); err == nil {
+				importFile = absMatch
+			}
+			sources = append(sources, importFile)
 		}
 	}
+
+	// refuse import cycles: the tokens of a file or snippet must not
+	// import that same file or snippet again, or parsing never ends
+	start := p.cursor - 1 // index of the import directive
+	active := p.activeImports[:0]
+	for _, frame := range p.activeImports {
+		if frame.end > start {
+			active = append(active, frame)
+		}
+	}
+	for _, frame := range active {
+		for _, outer := range frame.sources {
+			for _, src := range sources {
+				if src == outer {
+					return p.Errf("Import cycle: %s is imported from within itself", src)
+				}
+			}
+		}
+	}
+	for i := range active {
+		active[i].end += len(importedTokens) - 2
+	}
+	p.activeImports = append(active, importFrame{sources: sources, end: start + len(importedTokens)})
 
 	// splice the imported tokens in the place of the import statement
 	// and rewind cursor so Next() will land on first imported token
